@@ -18,10 +18,12 @@
 //!
 //! output fields:
 //!   status  code  accepted(0/1)  op  nsinks  nbytes  nrecords  hits  corrsig(0/1)
-//!   secret(hex) ak(hex) dbg_secretkey(hex) json_secretkey(hex) dbg_credentials(opt hex) nredacted trace
+//!   secret(hex) ak(hex) dbg_secretkey(hex) json_secretkey(hex) dbg_credentials(opt hex) nredacted trace bin_secretkey(hex)
 //! nredacted = number of captured trace records that contain the `{:?}` rendering of a `SecretKey`
+//! bin_secretkey = the `SecretKey` through a compact binary serde format (`is_human_readable() = false`, module `binser`)
 //! trace = the captured events that are sites of the emission model, in order: `LEVEL:site[+field…]` joined by `,`
-//! hits = `-` or `,`-joined `sink/form` names (sink ∈ response, log, debug:S3Request, debug:Credentials, …)
+//! hits = `-` or `,`-joined `sink/form` names (sink ∈ response, log, debug:S3Request, debug:Credentials,
+//!        json:SecretKey, serde-binary:SecretKey, …)
 //! corrsig = the valid signature of a request that was REFUSED, which the client did NOT send, occurs in the captured
 //!           log (observation, not a failure of C16: the signature is not the key)
 use bytes::Bytes;
@@ -110,6 +112,221 @@ fn install_capture() {
 }
 
 // ------------------------------------------------------------------------------------------
+// a compact binary serde format (NOT human readable): a redaction that only holds for `is_human_readable()`
+// formats (JSON, YAML, …) shows its key here.  Layout: integers little-endian fixed width, bool/u8 one byte,
+// `str`/`bytes` = u32 LE length + bytes, `Option` = tag byte, sequences/maps = u32 LE count (0xFFFF_FFFF when
+// unknown) + items, structs/tuples = fields in order, enum variants = u32 LE index + payload.
+
+mod binser {
+    use serde::ser::{self, Serialize};
+
+    #[derive(Debug)]
+    pub struct Error(pub String);
+
+    impl std::fmt::Display for Error {
+        fn fmt(&self, f: &mut std::fmt::Formatter<'_>) -> std::fmt::Result {
+            f.write_str(&self.0)
+        }
+    }
+    impl std::error::Error for Error {}
+    impl ser::Error for Error {
+        fn custom<T: std::fmt::Display>(msg: T) -> Self {
+            Error(msg.to_string())
+        }
+    }
+
+    pub struct Bin<'a>(pub &'a mut Vec<u8>);
+    pub struct Compound<'a>(&'a mut Vec<u8>);
+
+    /// serialise `v` in the compact binary format; an error is returned as text behind the bytes written so far
+    pub fn to_vec<T: Serialize + ?Sized>(v: &T) -> Vec<u8> {
+        let mut out = Vec::new();
+        if let Err(e) = v.serialize(Bin(&mut out)) {
+            out.extend_from_slice(format!("<error {e}>").as_bytes());
+        }
+        out
+    }
+
+    fn len32(out: &mut Vec<u8>, n: Option<usize>) {
+        let n = n.map_or(u32::MAX, |n| u32::try_from(n).unwrap_or(u32::MAX));
+        out.extend_from_slice(&n.to_le_bytes());
+    }
+
+    macro_rules! le {
+        ($name:ident, $t:ty) => {
+            fn $name(self, v: $t) -> Result<(), Error> {
+                self.0.extend_from_slice(&v.to_le_bytes());
+                Ok(())
+            }
+        };
+    }
+
+    impl<'a> ser::Serializer for Bin<'a> {
+        type Ok = ();
+        type Error = Error;
+        type SerializeSeq = Compound<'a>;
+        type SerializeTuple = Compound<'a>;
+        type SerializeTupleStruct = Compound<'a>;
+        type SerializeTupleVariant = Compound<'a>;
+        type SerializeMap = Compound<'a>;
+        type SerializeStruct = Compound<'a>;
+        type SerializeStructVariant = Compound<'a>;
+
+        fn is_human_readable(&self) -> bool {
+            false
+        }
+
+        fn serialize_bool(self, v: bool) -> Result<(), Error> {
+            self.0.push(u8::from(v));
+            Ok(())
+        }
+        le!(serialize_i8, i8);
+        le!(serialize_i16, i16);
+        le!(serialize_i32, i32);
+        le!(serialize_i64, i64);
+        le!(serialize_u8, u8);
+        le!(serialize_u16, u16);
+        le!(serialize_u32, u32);
+        le!(serialize_u64, u64);
+        le!(serialize_f32, f32);
+        le!(serialize_f64, f64);
+        fn serialize_char(self, v: char) -> Result<(), Error> {
+            self.0.extend_from_slice(&u32::from(v).to_le_bytes());
+            Ok(())
+        }
+        fn serialize_str(self, v: &str) -> Result<(), Error> {
+            self.serialize_bytes(v.as_bytes())
+        }
+        fn serialize_bytes(self, v: &[u8]) -> Result<(), Error> {
+            len32(self.0, Some(v.len()));
+            self.0.extend_from_slice(v);
+            Ok(())
+        }
+        fn serialize_none(self) -> Result<(), Error> {
+            self.0.push(0);
+            Ok(())
+        }
+        fn serialize_some<T: Serialize + ?Sized>(self, v: &T) -> Result<(), Error> {
+            self.0.push(1);
+            v.serialize(Bin(self.0))
+        }
+        fn serialize_unit(self) -> Result<(), Error> {
+            Ok(())
+        }
+        fn serialize_unit_struct(self, _name: &'static str) -> Result<(), Error> {
+            Ok(())
+        }
+        fn serialize_unit_variant(self, _name: &'static str, index: u32, _variant: &'static str) -> Result<(), Error> {
+            self.0.extend_from_slice(&index.to_le_bytes());
+            Ok(())
+        }
+        fn serialize_newtype_struct<T: Serialize + ?Sized>(self, _name: &'static str, v: &T) -> Result<(), Error> {
+            v.serialize(Bin(self.0))
+        }
+        fn serialize_newtype_variant<T: Serialize + ?Sized>(
+            self,
+            _name: &'static str,
+            index: u32,
+            _variant: &'static str,
+            v: &T,
+        ) -> Result<(), Error> {
+            self.0.extend_from_slice(&index.to_le_bytes());
+            v.serialize(Bin(self.0))
+        }
+        fn serialize_seq(self, len: Option<usize>) -> Result<Compound<'a>, Error> {
+            len32(self.0, len);
+            Ok(Compound(self.0))
+        }
+        fn serialize_tuple(self, _len: usize) -> Result<Compound<'a>, Error> {
+            Ok(Compound(self.0))
+        }
+        fn serialize_tuple_struct(self, _name: &'static str, _len: usize) -> Result<Compound<'a>, Error> {
+            Ok(Compound(self.0))
+        }
+        fn serialize_tuple_variant(
+            self,
+            _name: &'static str,
+            index: u32,
+            _variant: &'static str,
+            _len: usize,
+        ) -> Result<Compound<'a>, Error> {
+            self.0.extend_from_slice(&index.to_le_bytes());
+            Ok(Compound(self.0))
+        }
+        fn serialize_map(self, len: Option<usize>) -> Result<Compound<'a>, Error> {
+            len32(self.0, len);
+            Ok(Compound(self.0))
+        }
+        fn serialize_struct(self, _name: &'static str, _len: usize) -> Result<Compound<'a>, Error> {
+            Ok(Compound(self.0))
+        }
+        fn serialize_struct_variant(
+            self,
+            _name: &'static str,
+            index: u32,
+            _variant: &'static str,
+            _len: usize,
+        ) -> Result<Compound<'a>, Error> {
+            self.0.extend_from_slice(&index.to_le_bytes());
+            Ok(Compound(self.0))
+        }
+    }
+
+    macro_rules! compound {
+        ($tr:ident, $method:ident) => {
+            impl ser::$tr for Compound<'_> {
+                type Ok = ();
+                type Error = Error;
+                fn $method<T: Serialize + ?Sized>(&mut self, v: &T) -> Result<(), Error> {
+                    v.serialize(Bin(self.0))
+                }
+                fn end(self) -> Result<(), Error> {
+                    Ok(())
+                }
+            }
+        };
+    }
+    compound!(SerializeSeq, serialize_element);
+    compound!(SerializeTuple, serialize_element);
+    compound!(SerializeTupleStruct, serialize_field);
+    compound!(SerializeTupleVariant, serialize_field);
+
+    impl ser::SerializeMap for Compound<'_> {
+        type Ok = ();
+        type Error = Error;
+        fn serialize_key<T: Serialize + ?Sized>(&mut self, k: &T) -> Result<(), Error> {
+            k.serialize(Bin(self.0))
+        }
+        fn serialize_value<T: Serialize + ?Sized>(&mut self, v: &T) -> Result<(), Error> {
+            v.serialize(Bin(self.0))
+        }
+        fn end(self) -> Result<(), Error> {
+            Ok(())
+        }
+    }
+    impl ser::SerializeStruct for Compound<'_> {
+        type Ok = ();
+        type Error = Error;
+        fn serialize_field<T: Serialize + ?Sized>(&mut self, _key: &'static str, v: &T) -> Result<(), Error> {
+            v.serialize(Bin(self.0))
+        }
+        fn end(self) -> Result<(), Error> {
+            Ok(())
+        }
+    }
+    impl ser::SerializeStructVariant for Compound<'_> {
+        type Ok = ();
+        type Error = Error;
+        fn serialize_field<T: Serialize + ?Sized>(&mut self, _key: &'static str, v: &T) -> Result<(), Error> {
+            v.serialize(Bin(self.0))
+        }
+        fn end(self) -> Result<(), Error> {
+            Ok(())
+        }
+    }
+}
+
+// ------------------------------------------------------------------------------------------
 // recording backend and access
 
 struct Rec {
@@ -139,6 +356,12 @@ fn note_credentials(s: &mut Vec<(String, Vec<u8>)>, c: &Credentials) {
     s.push(("debug:SecretKey".to_owned(), format!("{:?}\n{:#?}", c.secret_key, c.secret_key).into_bytes()));
     s.push(("json:SecretKey".to_owned(), serde_json::to_vec(&c.secret_key).unwrap_or_default()));
     s.push(("json-pretty:SecretKey".to_owned(), serde_json::to_vec_pretty(&c.secret_key).unwrap_or_default()));
+    s.push(("serde-binary:SecretKey".to_owned(), binser::to_vec(&c.secret_key)));
+    // inside containers, as a map value and behind an Option (what a config / session store would serialise)
+    let held: (Option<&SecretKey>, Vec<&SecretKey>, std::collections::BTreeMap<&str, &SecretKey>) =
+        (Some(&c.secret_key), vec![&c.secret_key], [(c.access_key.as_str(), &c.secret_key)].into_iter().collect());
+    s.push(("serde-binary:containers-of-SecretKey".to_owned(), binser::to_vec(&held)));
+    s.push(("json:containers-of-SecretKey".to_owned(), serde_json::to_vec(&held).unwrap_or_default()));
     let cloned = c.clone();
     s.push(("debug:Credentials.clone".to_owned(), format!("{cloned:?}").into_bytes()));
 }
@@ -740,6 +963,7 @@ fn evaluate(f: &[&str]) -> Vec<String> {
         let sk = SecretKey::from(keys.secret.clone().into_boxed_str());
         s.push(("debug:SecretKey".to_owned(), format!("{sk:?}\n{sk:#?}").into_bytes()));
         s.push(("json:SecretKey".to_owned(), serde_json::to_vec(&sk).unwrap_or_default()));
+        s.push(("serde-binary:SecretKey".to_owned(), binser::to_vec(&sk)));
         let cred = Credentials { access_key: keys.ak.clone(), secret_key: sk.clone() };
         note_credentials(&mut s, &cred);
         s.push(("debug:Credentials".to_owned(), format!("{cred:?}\n{cred:#?}").into_bytes()));
@@ -747,6 +971,7 @@ fn evaluate(f: &[&str]) -> Vec<String> {
         let back: SecretKey = serde_json::from_str(&serde_json::to_string(&keys.secret).unwrap()).unwrap();
         s.push(("json:SecretKey.roundtrip".to_owned(), serde_json::to_vec(&back).unwrap_or_default()));
         s.push(("debug:SecretKey.roundtrip".to_owned(), format!("{back:?}").into_bytes()));
+        s.push(("serde-binary:SecretKey.roundtrip".to_owned(), binser::to_vec(&back)));
         // stream type that owns a SecretKey
         if let Ok(date) = s3s::verif_hooks::sig_v4::AmzDate::parse("20240101T000000Z") {
             let st = s3s::verif_hooks::http::AwsChunkedStream::new(
@@ -854,6 +1079,7 @@ fn evaluate(f: &[&str]) -> Vec<String> {
     let sk = SecretKey::from(keys.secret.as_str());
     let dbg_sk = format!("{sk:?}");
     let json_sk = serde_json::to_string(&sk).unwrap_or_default();
+    let bin_sk = binser::to_vec(&sk);
     let dc = dbg_cred.lock().unwrap().clone();
     // projection of the captured records onto the sites of the emission model (`S3V.Secrets.Site`), in order
     let mut trace: Vec<String> = Vec::new();
@@ -902,6 +1128,7 @@ fn evaluate(f: &[&str]) -> Vec<String> {
         opt_hex(dc.as_deref().map(str::as_bytes)),
         nredacted.to_string(),
         if trace.is_empty() { "-".to_owned() } else { trace.join(",") },
+        hex(&bin_sk),
     ]
 }
 
